@@ -222,6 +222,10 @@ def oracle(ctx, extra):
     docs = [e for e in extra if isinstance(e, str)]
     docs += [d.replace("\r\n", "\n").replace("\r", "\n") for d in docs]
     docs += BLANK_DOCS
+    # documents shaped like files: what tools put on the first lines (front matter, title blocks, comments, a byte-order mark)
+    heads = ["---\ntitle: T\ntags: [a, b]\n---\n", "---\nkey: v\n...\n", "+++\nt = 1\n+++\n", "% Title\n% Author\n", "<!-- generated -->\n", "\ufeff# Title\n",
+             "#!/usr/bin/env x\n", "Title\n=====\n", "---\n---\n", "---\n\n---\n", "***\nmeta\n***\n", "[//]: # (c)\n", "{% raw %}\n"]
+    docs += [h + b for h in heads for b in ("", "\n# Body\n\ntext *x*\n", "para\nmore\n")]
     docs += list(gen_docs.mixed_stream(r, n, plugins=gen_docs.ALL_PLUGINS))
     docs += [gen_docs.edge_doc(r) for _ in range(n // 10)]
     docs += [d.rstrip("\n") for d in docs[: n // 3]]
@@ -251,7 +255,7 @@ def oracle(ctx, extra):
             fails.append({"input": None, "config": name, "expected": b, "got": a, "how": "none"})
     return {"evaluations": ev * 4, "distinct_nontrivial": nontriv, "failures": fails,
             "rule": "LF documents (70% structured markdown incl. all plugins, 15% mutated, 15% noise; a third without final "
-                    "newline; 14 empty or white-space-only documents; 10% documents with wide white space at the borders of block text) x {CRLF, CR, unambiguous mixed, +final newline} x 6 converters (+ the parse() and read() entry points, + the shortcut mistune.markdown() with the html, ast, rst and markdown renderers; + python -m mistune reading documents, among them ones with a common left margin, from a pipe as bytes); non-trivial = has a line "
+                    "newline; 14 empty or white-space-only documents; 39 documents that begin like files do (front matter, title blocks, comments, a byte-order mark); 10% documents with wide white space at the borders of block text) x {CRLF, CR, unambiguous mixed, +final newline} x 6 converters (+ the parse() and read() entry points, + the shortcut mistune.markdown() with the html, ast, rst and markdown renderers; + python -m mistune reading documents, among them ones with a common left margin, from a pipe as bytes); non-trivial = has a line "
                     "ending to vary or lacks the final newline; distinct by text",
             "samples": [json.dumps(d) for d in docs[:4]]}
 
